@@ -344,9 +344,11 @@ def execute(sc, script=None):
     sc = copy.deepcopy(sc)
     if sc.get("xlsx"):
         # trailing rows whose cells are all empty do not exist in a saved workbook
-        while len(sc["rows"]) > 1 and all(c.strip() == "" for c in sc["rows"][-1]):
+        while sc["rows"] and all(c.strip() == "" for c in sc["rows"][-1]):
             sc["rows"].pop()
             sc["perms"] = []
+        if not sc["rows"]:
+            return _result(sc, [], {"worksheet_without_data_rows": 1}, [], False)
     cols = sc["columns"]
     # Delay/Duration spellings that string validation does not accept are replaced by plain tags (the property
     # quantifies over accepted spellings only)
